@@ -220,6 +220,19 @@ fn root_hash<'a, I: core::iter::Iterator<Item = TlvRecord<'a>> + 'a>(
 	*leaves.first().unwrap()
 }
 
+/// Verification-harness accessor: [`root_hash`] over a well-formed TLV stream (panics like
+/// [`TaggedHash::from_valid_tlv_stream_bytes`] when it is not).
+#[cfg(feature = "verif_hooks")]
+pub(crate) fn verif_root_hash(bytes: &[u8]) -> sha256::Hash {
+	root_hash(TlvStream::new(bytes))
+}
+
+/// Verification-harness accessor: the digest of [`TaggedHash::from_valid_tlv_stream_bytes`].
+#[cfg(feature = "verif_hooks")]
+pub(crate) fn verif_tagged_digest(tag: &'static str, bytes: &[u8]) -> [u8; 32] {
+	TaggedHash::from_valid_tlv_stream_bytes(tag, bytes).to_bytes()
+}
+
 fn tagged_hash<T: AsRef<[u8]>>(tag: sha256::Hash, msg: T) -> sha256::Hash {
 	let engine = tagged_hash_engine(tag);
 	tagged_hash_from_engine(engine, msg)
